@@ -101,9 +101,9 @@ def main(tier):
     hists = histories(rep, wd, maxlen)
     jobs = []
     for name, consts, budget in cfgs:
-        progs = passes.enumerate_programs(rep, name, passes.ast_cfg(*consts), wd)
+        progs = passes.enumerate_programs(rep, name, passes.ast_cfg(*consts), wd, budget=budget)
+        rep.cov.setdefault('enumerated_programs', {})[name] = progs.total
         progs = [p for p in progs if p['natives']]          # the emulator needs a native gate set
-        rep.cov.setdefault('enumerated_programs', {})[name] = len(progs)
         if len(progs) > budget:
             progs = rng.sample(progs, budget)
             rep.cov['exhaustive'] = False
